@@ -69,7 +69,12 @@ def drive_b(rec, part, count):
         op = rng.choice(ops)
         n = rng.choice([2, 4, 8, 8, 16, 32])
         ar = vecops.ARITY[op]
-        rs, as_, bs = rng.randrange(0, 41), (rng.randrange(0, 41) if ar >= 1 else 0), (rng.randrange(0, 41) if ar == 2 else 0)
+        top = rng.choice([41, 41, 41, 100])          # now and then well beyond 40 limbs
+        rs, as_, bs = rng.randrange(0, top), (rng.randrange(0, top) if ar >= 1 else 0), (rng.randrange(0, top) if ar == 2 else 0)
+        if rng.random() < 0.15 and ar >= 1:          # arithmetic relations between the sizes
+            as_ = rng.randrange(0, 30)
+            rs = rng.choice([2 * as_ + 1, 2 * as_, as_ + 1, max(0, as_ - 1), as_ // 2])
+            bs = rng.choice([as_, as_ + 1, 2 * as_ + 1, rs]) if ar == 2 else 0
         big = op.startswith("big_")
         big_a = op in ("big_add", "big_add_small", "big_sub", "big_sub_small_b", "big_rotate", "big_automorphism")
         big_b = op in ("big_add", "big_sub", "big_sub_small_a")
